@@ -2726,8 +2726,8 @@ def _load_headers(headers: Optional[HeaderArg]) -> Headers:
     """Transform the headers to dict."""
     if headers is None:
         return {}
-    if isinstance(headers, dict):
-        return headers
+    # NOTE: Always a new dict: the callers add entries to the result, which
+    #   must not end up in a mapping that the application owns (and may reuse).
     return dict(headers)
 
 
